@@ -258,3 +258,298 @@ pub fn depth(t: &Term) -> usize {
     }
     1 + cs.iter().map(|c| depth(c)).max().unwrap_or(0)
 }
+
+// ------------------------------------------------------------------------------------------
+// Values that only the public enum variants / constructors can build (no parser output, no formatter round trip):
+// the placeholder as an ORDINARY component, images whose own component list holds a placeholder or whose index lies
+// beyond the list, and equal terms spelled differently.
+
+/// the same structure with every atom leaf replaced by `f(leaf)` (image indices kept; built through the variants /
+/// set constructors, so set payloads are fresh HashSets)
+pub fn map_atoms(t: &Term, f: &mut dyn FnMut(&Term) -> Term) -> Term {
+    use Term::*;
+    fn vecm(v: &[Term], f: &mut dyn FnMut(&Term) -> Term) -> Vec<Term> {
+        v.iter().map(|x| map_atoms(x, f)).collect()
+    }
+    fn setm(s: &std::collections::HashSet<Term>, f: &mut dyn FnMut(&Term) -> Term) -> Vec<Term> {
+        s.iter().map(|x| map_atoms(x, f)).collect()
+    }
+    fn bx(x: &Term, f: &mut dyn FnMut(&Term) -> Term) -> Box<Term> {
+        Box::new(map_atoms(x, f))
+    }
+    match t {
+        Word(..) | Placeholder | VariableIndependent(..) | VariableDependent(..) | VariableQuery(..) | Interval(..) | Operator(..) => f(t),
+        SetExtension(s) => Term::new_set_extension(setm(s, f)),
+        SetIntension(s) => Term::new_set_intension(setm(s, f)),
+        IntersectionExtension(s) => Term::new_intersection_extension(setm(s, f)),
+        IntersectionIntension(s) => Term::new_intersection_intension(setm(s, f)),
+        Conjunction(s) => Term::new_conjunction(setm(s, f)),
+        Disjunction(s) => Term::new_disjunction(setm(s, f)),
+        ConjunctionParallel(s) => Term::new_conjunction_parallel(setm(s, f)),
+        Product(v) => Product(vecm(v, f)),
+        ConjunctionSequential(v) => ConjunctionSequential(vecm(v, f)),
+        ImageExtension(i, v) => ImageExtension(*i, vecm(v, f)),
+        ImageIntension(i, v) => ImageIntension(*i, vecm(v, f)),
+        Negation(a) => Negation(bx(a, f)),
+        DifferenceExtension(a, b) => DifferenceExtension(bx(a, f), bx(b, f)),
+        DifferenceIntension(a, b) => DifferenceIntension(bx(a, f), bx(b, f)),
+        Inheritance(a, b) => Inheritance(bx(a, f), bx(b, f)),
+        Similarity(a, b) => Similarity(bx(a, f), bx(b, f)),
+        Implication(a, b) => Implication(bx(a, f), bx(b, f)),
+        Equivalence(a, b) => Equivalence(bx(a, f), bx(b, f)),
+        ImplicationPredictive(a, b) => ImplicationPredictive(bx(a, f), bx(b, f)),
+        ImplicationConcurrent(a, b) => ImplicationConcurrent(bx(a, f), bx(b, f)),
+        ImplicationRetrospective(a, b) => ImplicationRetrospective(bx(a, f), bx(b, f)),
+        EquivalencePredictive(a, b) => EquivalencePredictive(bx(a, f), bx(b, f)),
+        EquivalenceConcurrent(a, b) => EquivalenceConcurrent(bx(a, f), bx(b, f)),
+    }
+}
+
+/// `t` with each atom leaf turned into the placeholder with probability num/den: the placeholder is an atom like any
+/// other and may be a component of every compound and statement (the parsers accept `(*, _, A)`, `<_ --> A>`)
+pub fn sprinkle_placeholders(t: &Term, rng: &mut Rng, num: usize, den: usize) -> Term {
+    map_atoms(t, &mut |a| if rng.chance(num, den) { Term::Placeholder } else { a.clone() })
+}
+
+/// The same term spelled differently wherever equality allows it: the operands of every symmetric statement swapped,
+/// set payloads inserted in reverse iteration order into fresh HashSets (one element inserted twice), at every
+/// depth.  Unlike `rebuild` this is deterministic: EVERY symmetric node is swapped.
+pub fn respell(t: &Term) -> Term {
+    use Term::*;
+    let set = |s: &std::collections::HashSet<Term>| -> Vec<Term> {
+        let mut v: Vec<Term> = s.iter().map(respell).collect();
+        v.reverse();
+        if let Some(x) = s.iter().next() {
+            v.push(respell(x));
+        }
+        v
+    };
+    let bx = |x: &Term| Box::new(respell(x));
+    match t {
+        Word(..) | Placeholder | VariableIndependent(..) | VariableDependent(..) | VariableQuery(..) | Interval(..) | Operator(..) => t.clone(),
+        SetExtension(s) => Term::new_set_extension(set(s)),
+        SetIntension(s) => Term::new_set_intension(set(s)),
+        IntersectionExtension(s) => Term::new_intersection_extension(set(s)),
+        IntersectionIntension(s) => Term::new_intersection_intension(set(s)),
+        Conjunction(s) => Term::new_conjunction(set(s)),
+        Disjunction(s) => Term::new_disjunction(set(s)),
+        ConjunctionParallel(s) => Term::new_conjunction_parallel(set(s)),
+        Product(v) => Product(v.iter().map(respell).collect()),
+        ConjunctionSequential(v) => ConjunctionSequential(v.iter().map(respell).collect()),
+        ImageExtension(i, v) => ImageExtension(*i, v.iter().map(respell).collect()),
+        ImageIntension(i, v) => ImageIntension(*i, v.iter().map(respell).collect()),
+        Negation(a) => Negation(bx(a)),
+        DifferenceExtension(a, b) => DifferenceExtension(bx(a), bx(b)),
+        DifferenceIntension(a, b) => DifferenceIntension(bx(a), bx(b)),
+        Inheritance(a, b) => Inheritance(bx(a), bx(b)),
+        Implication(a, b) => Implication(bx(a), bx(b)),
+        ImplicationPredictive(a, b) => ImplicationPredictive(bx(a), bx(b)),
+        ImplicationConcurrent(a, b) => ImplicationConcurrent(bx(a), bx(b)),
+        ImplicationRetrospective(a, b) => ImplicationRetrospective(bx(a), bx(b)),
+        EquivalencePredictive(a, b) => EquivalencePredictive(bx(a), bx(b)),
+        // swapped
+        Similarity(a, b) => Similarity(bx(b), bx(a)),
+        Equivalence(a, b) => Equivalence(bx(b), bx(a)),
+        EquivalenceConcurrent(a, b) => EquivalenceConcurrent(bx(b), bx(a)),
+    }
+}
+
+/// a term of constructor `kind` (7..30, numbering of `TermGen::term_of`) over the given components; fixed-arity
+/// constructors take the first one / two (None when there are too few); images take `idx`
+pub fn compound_of(kind: usize, idx: usize, v: &[Term]) -> Option<Term> {
+    use Term::*;
+    let b = |i: usize| v.get(i).cloned().map(Box::new);
+    Some(match kind {
+        7 => Term::new_set_extension(v.to_vec()),
+        8 => Term::new_set_intension(v.to_vec()),
+        9 => Term::new_intersection_extension(v.to_vec()),
+        10 => Term::new_intersection_intension(v.to_vec()),
+        11 => DifferenceExtension(b(0)?, b(1)?),
+        12 => DifferenceIntension(b(0)?, b(1)?),
+        13 => Product(v.to_vec()),
+        14 => ImageExtension(idx, v.to_vec()),
+        15 => ImageIntension(idx, v.to_vec()),
+        16 => Term::new_conjunction(v.to_vec()),
+        17 => Term::new_disjunction(v.to_vec()),
+        18 => Negation(b(0)?),
+        19 => ConjunctionSequential(v.to_vec()),
+        20 => Term::new_conjunction_parallel(v.to_vec()),
+        21 => Inheritance(b(0)?, b(1)?),
+        22 => Similarity(b(0)?, b(1)?),
+        23 => Implication(b(0)?, b(1)?),
+        24 => Equivalence(b(0)?, b(1)?),
+        25 => ImplicationPredictive(b(0)?, b(1)?),
+        26 => ImplicationConcurrent(b(0)?, b(1)?),
+        27 => ImplicationRetrospective(b(0)?, b(1)?),
+        28 => EquivalencePredictive(b(0)?, b(1)?),
+        29 => EquivalenceConcurrent(b(0)?, b(1)?),
+        _ => return None,
+    })
+}
+
+/// Every compound / statement constructor over component lists that hold the placeholder as an ordinary component
+/// (only, first, middle, last, twice, all), for images with every index 0..=len; each paired with a near miss: the same
+/// constructor WITHOUT those placeholders (variable arity: an accessor / comparison / hash that filters placeholders
+/// conflates the two), or with the operands in the other order (fixed arity).
+pub fn placeholder_compounds(rng: &mut Rng, g: &TermGen) -> Vec<(Term, Term)> {
+    let ph = Term::Placeholder;
+    let (a, b) = (g.term(rng, 3), g.term(rng, 3));
+    let lists: Vec<Vec<Term>> = vec![
+        vec![ph.clone()],
+        vec![ph.clone(), a.clone()],
+        vec![a.clone(), ph.clone()],
+        vec![a.clone(), ph.clone(), b.clone()],
+        vec![ph.clone(), ph.clone()],
+        vec![ph.clone(), a.clone(), ph.clone()],
+        vec![a.clone(), ph.clone(), b.clone(), ph.clone()],
+        vec![ph.clone(), a.clone(), b.clone()],
+    ];
+    let mut out = vec![];
+    for kind in 7..30usize {
+        for l in &lists {
+            let stripped: Vec<Term> = l.iter().filter(|x| !matches!(x, Term::Placeholder)).cloned().collect();
+            let fixed = matches!(kind, 11 | 12 | 18 | 21..=29);
+            if fixed && l.len() != (if kind == 18 { 1 } else { 2 }) {
+                continue;
+            }
+            let idxs: Vec<usize> = if kind == 14 || kind == 15 { (0..=l.len()).collect() } else { vec![0] };
+            for idx in idxs {
+                let t = match compound_of(kind, idx, l) {
+                    Some(t) => t,
+                    None => continue,
+                };
+                let near = if fixed {
+                    let mut r = l.clone();
+                    r.reverse();
+                    compound_of(kind, idx, &r).unwrap_or_else(|| t.clone())
+                } else {
+                    compound_of(kind, idx.min(stripped.len()), &stripped).unwrap_or_else(|| t.clone())
+                };
+                out.push((t, near));
+            }
+        }
+    }
+    out
+}
+
+/// Near-miss pairs of images (different by the reference): the index is part of the value even when the
+/// placeholder-expanded sequence `(/, a, _, b)` is the same.
+///  (a) the same component list, which itself contains a placeholder, under two indices (in range and beyond);
+///  (b) different (index, list) with the SAME expanded sequence: a sequence with two or more placeholders, each of them
+///      taken as "the" index in turn;
+///  (c) placeholder-free lists with indices beyond the list (nothing is expanded), against each other and against index = len;
+///  (d) an image against the product of its expanded sequence / the other image kind with the same index and list.
+pub fn image_near_misses(rng: &mut Rng, g: &TermGen) -> Vec<(Term, Term)> {
+    let ph = Term::Placeholder;
+    let mut out: Vec<(Term, Term)> = vec![];
+    let mk = |ext: bool, i: usize, v: &[Term]| if ext { Term::ImageExtension(i, v.to_vec()) } else { Term::ImageIntension(i, v.to_vec()) };
+    let expand = |i: usize, v: &[Term]| -> Vec<Term> {
+        let mut w = v.to_vec();
+        if i <= w.len() {
+            w.insert(i, Term::Placeholder);
+        }
+        w
+    };
+    for round in 0..4 {
+        let ext = round % 2 == 0;
+        let (a, b) = (g.term(rng, 3), g.term(rng, 3));
+        // (a)
+        let lists: Vec<Vec<Term>> = vec![
+            vec![ph.clone()],
+            vec![ph.clone(), a.clone()],
+            vec![a.clone(), ph.clone()],
+            vec![a.clone(), ph.clone(), b.clone()],
+            vec![ph.clone(), ph.clone(), a.clone()],
+        ];
+        for v in &lists {
+            for i in 0..=v.len() + 2 {
+                for j in 0..=v.len() + 2 {
+                    if i < j {
+                        out.push((mk(ext, i, v), mk(ext, j, v)));
+                    }
+                }
+            }
+            // (d)
+            for i in 0..=v.len() {
+                out.push((mk(ext, i, v), Term::Product(expand(i, v))));
+                out.push((mk(ext, i, v), mk(!ext, i, v)));
+            }
+        }
+        // (b)
+        let seqs: Vec<Vec<Term>> = vec![
+            vec![ph.clone(), ph.clone()],
+            vec![ph.clone(), a.clone(), ph.clone()],
+            vec![a.clone(), ph.clone(), ph.clone(), b.clone()],
+            vec![ph.clone(), a.clone(), ph.clone(), b.clone(), ph.clone()],
+        ];
+        for s in &seqs {
+            let pos: Vec<usize> = (0..s.len()).filter(|k| matches!(s[*k], Term::Placeholder)).collect();
+            let imgs: Vec<Term> = pos
+                .iter()
+                .map(|p| {
+                    let mut v = s.clone();
+                    v.remove(*p);
+                    mk(ext, *p, &v)
+                })
+                .collect();
+            for x in 0..imgs.len() {
+                for y in x + 1..imgs.len() {
+                    out.push((imgs[x].clone(), imgs[y].clone()));
+                }
+            }
+        }
+        // (c)
+        let v: Vec<Term> = (0..rng.range(0, 3)).map(|_| g.term(rng, 3)).collect();
+        let n = v.len();
+        for (i, j) in [(n, n + 1), (n + 1, n + 2), (n + 1, n + 5), (n + 2, usize::MAX), (0, n + 1)] {
+            if i != j {
+                out.push((mk(ext, i, &v), mk(ext, j, &v)));
+            }
+        }
+    }
+    out
+}
+
+/// Pairs of atoms that differ in the constructor only and report the same name (`A` / `$A` / `#A` / `?A` / `^A`, the
+/// interval `+7` / the word `7`, the placeholder / a word named "" or "_"): "same constructor" is part of equality
+/// wherever the atom stands -- a comparison that goes through the names conflates them.
+pub fn atom_kind_near_misses(rng: &mut Rng, g: &TermGen) -> Vec<(Term, Term)> {
+    let n = g.name(rng);
+    let k = rng.below(1000);
+    let named: Vec<Term> = vec![
+        Term::new_word(n.clone()),
+        Term::new_variable_independent(n.clone()),
+        Term::new_variable_dependent(n.clone()),
+        Term::new_variable_query(n.clone()),
+        Term::new_operator(n.clone()),
+    ];
+    let mut out = vec![];
+    for i in 0..named.len() {
+        for j in i + 1..named.len() {
+            out.push((named[i].clone(), named[j].clone()));
+        }
+    }
+    out.push((Term::new_interval(k), Term::new_word(k.to_string())));
+    out.push((Term::new_interval(k), Term::new_operator(k.to_string())));
+    out.push((Term::new_interval(k), Term::new_variable_query(format!("+{}", k))));
+    out.push((Term::Placeholder, Term::new_word("")));
+    out.push((Term::Placeholder, Term::new_word("_")));
+    out.push((Term::Placeholder, Term::new_variable_dependent("")));
+    out
+}
+
+/// `x` and `y` placed at the same position of otherwise identical component lists of constructor `kind`
+/// (None when the constructor cannot be built over three components / two operands)
+pub fn same_context(kind: usize, rng: &mut Rng, g: &TermGen, x: &Term, y: &Term) -> Option<(Term, Term)> {
+    let fixed1 = kind == 18;
+    let fixed2 = matches!(kind, 11 | 12 | 21..=29);
+    let len = if fixed1 { 1 } else if fixed2 { 2 } else { rng.range(1, 3) };
+    let pos = rng.below(len);
+    let mut v: Vec<Term> = (0..len).map(|_| g.term(rng, 3)).collect();
+    let idx = rng.range(0, len);
+    v[pos] = x.clone();
+    let a = compound_of(kind, idx, &v)?;
+    v[pos] = y.clone();
+    let b = compound_of(kind, idx, &v)?;
+    Some((a, b))
+}
